@@ -1,6 +1,343 @@
-//! C15 — implementation side of the correspondence (stub).
+//! C15 — actor adapters are transparent.
+//! (i) every handler of every adapter (`Choice<A,Never>`, `Choice<A1,A2>` in each position and nested,
+//!     `RegisterActor::Server`, `WORegisterActor::Server`, and nestings of these) against the unwrapped
+//!     `TableActor` on every (state, event) of random tables using messages, timers and random choices;
+//! (ii) the reachable graphs of wrapped and unwrapped systems (walked through `Model`) are isomorphic under the lift;
+//! (iii) both against the Lean model. Plus the scripted `Vec<(Id, Msg)>` client, alone and against echo servers.
+use choice::{Choice, Never};
 use srh::out::*;
+use srh::rng::Rng;
+use srh::table_actor::*;
+use stateright::actor::register::{RegisterActor, RegisterActorState, RegisterMsg};
+use stateright::actor::write_once_register::{WORegisterActor, WORegisterActorState, WORegisterMsg};
+use stateright::actor::{Actor, Command, Id, Out as AOut};
+use std::borrow::Cow;
+use std::panic::{catch_unwind, AssertUnwindSafe};
+use std::sync::Arc;
+
+type RM = RegisterMsg<u64, char, u8>;
+type WM = WORegisterMsg<u64, char, u8>;
+
+fn out_sx<A: Actor>(o: &AOut<A>) -> String
+where
+    A::Msg: Code,
+    A::Timer: Code,
+    A::Random: Code,
+{
+    let v: Vec<String> = o.iter().map(|c| match c {
+        Command::Send(d, m) => format!("(s {} {})", usize::from(*d), m.code()),
+        Command::SetTimer(t, _) => format!("(t {})", t.code()),
+        Command::CancelTimer(t) => format!("(c {})", t.code()),
+        Command::ChooseRandom(k, cs) => {
+            let mut s = format!("(r {}", key_index(k));
+            for c in cs { s.push_str(&format!(" {}", c.code())); }
+            s.push(')');
+            s
+        }
+    }).collect();
+    format!("({})", v.join(" "))
+}
+
+#[derive(Clone, Debug)]
+enum Evt { Start, Msg(usize, u8), Timeout(u8), Random(u8) }
+impl Evt {
+    fn sx(&self, id: usize) -> String {
+        match self {
+            Evt::Start => format!("(start {})", id),
+            Evt::Msg(src, m) => format!("(msg {} {} {})", id, src, m),
+            Evt::Timeout(t) => format!("(timeout {} {})", id, t),
+            Evt::Random(r) => format!("(random {} {})", id, r),
+        }
+    }
+}
+
+/// run one handler; returns canonical result text (`panic` | `(ns cmds)`; for start `(state cmds)`)
+fn call<A>(a: &A, id: usize, st: Option<&A::State>, ev: &Evt, ust: &dyn Fn(&A::State) -> String) -> String
+where
+    A: Actor<Timer = TTimer, Random = TRandom>,
+    A::Msg: Code,
+{
+    let r = catch_unwind(AssertUnwindSafe(|| {
+        let mut o = AOut::new();
+        match ev {
+            Evt::Start => { let s = a.on_start(Id::from(id), &mut o); format!("({} {})", ust(&s), out_sx(&o)) }
+            _ => {
+                let mut cow = Cow::Borrowed(st.unwrap());
+                match ev {
+                    Evt::Msg(src, m) => a.on_msg(Id::from(id), &mut cow, Id::from(*src), A::Msg::from_code(*m as u64), &mut o),
+                    Evt::Timeout(t) => a.on_timeout(Id::from(id), &mut cow, &TTimer(*t), &mut o),
+                    Evt::Random(x) => a.on_random(Id::from(id), &mut cow, &TRandom(*x), &mut o),
+                    Evt::Start => unreachable!(),
+                }
+                let ns = match &cow { Cow::Borrowed(_) => "-".to_string(), Cow::Owned(s) => ust(s) };
+                format!("({} {})", ns, out_sx(&o))
+            }
+        }
+    }));
+    r.unwrap_or_else(|_| "panic".into())
+}
+
+fn log_sx(l: &Log) -> String {
+    format!("({})", take_log(l).iter().map(|i| i.to_sx()).collect::<Vec<_>>().join(" "))
+}
+
+fn wrap_sx(path: &str, inner: String) -> String {
+    let mut s = inner;
+    for c in path.chars().rev() { s = format!("({} {})", if c == 'O' { 'L' } else { c }, s); }
+    s
+}
+fn actor_sx(path: &str, t: &Table) -> String {
+    let mut s = t.to_sx();
+    for c in path.chars().rev() { s = format!("({} {})", c, s); }
+    s
+}
+
+/// (i) all handlers of one wrapped actor against the unwrapped one
+fn handler_cases<A, M>(out: &mut Out, r: &mut Rng, path: &str, table: &Arc<Table>, n_states: u8, n_actors: usize,
+                        mk: &dyn Fn(TableActor<M>) -> A, tag: &dyn Fn(TState) -> A::State, ust: &dyn Fn(&A::State) -> String,
+                        mismatch: Option<&A::State>, mismatch_sx: &str)
+where
+    M: Code,
+    A: Actor<Msg = M, Timer = TTimer, Random = TRandom>,
+{
+    let lu = new_log();
+    let lw = new_log();
+    let plain: TableActor<M> = TableActor::new(table.clone(), Some(lu.clone()));
+    let wrapped: A = mk(TableActor::new(table.clone(), Some(lw.clone())));
+    let asx = actor_sx(path, table);
+    let path_sx = format!("({})", path.chars().map(|c| c.to_string()).collect::<Vec<_>>().join(" "));
+    let id = r.below(n_actors);
+    let mut events = vec![Evt::Start];
+    for s in 0..n_actors + 1 { for m in 0..3u8 { events.push(Evt::Msg(s, m)); } }
+    for t in 0..3u8 { events.push(Evt::Timeout(t)); events.push(Evt::Random(t)); }
+    for ev in &events {
+        let states: Vec<u8> = if matches!(ev, Evt::Start) { vec![0] } else { (0..n_states).collect() };
+        for s in states {
+            let ru = call(&plain, id, Some(&TState(s)), ev, &|x: &TState| x.0.to_string());
+            let ws = tag(TState(s));
+            let rw = call(&wrapped, id, Some(&ws), ev, ust);
+            let (l1, l2) = (log_sx(&lu), log_sx(&lw));
+            out.m(&format!("wrap-h {} {} {}", asx, ust(&ws), ev.sx(id)), &rw);
+            out.o(&format!("o-handler {} {} {} {} {}", path_sx, ru, rw, l1, l2));
+            out.stat(match ev { Evt::Start => "handler-start", Evt::Msg(..) => "handler-msg", Evt::Timeout(_) => "handler-timeout", Evt::Random(_) => "handler-random" });
+            if ru.starts_with("(-") { out.stat("handler-result-borrowed"); } else if !matches!(ev, Evt::Start) { out.stat("handler-result-owned"); }
+            if ru.ends_with("())") { out.stat("handler-no-commands"); } else { out.stat("handler-with-commands"); }
+            out.distinct(&(path.to_string(), asx.clone(), s, ev.sx(id)));
+        }
+    }
+    // a state whose tag does not match the actor: `unreachable!()` in Choice (panic), `_ => {}` in the register actors
+    if let Some(ms) = mismatch {
+        for ev in [Evt::Msg(0, 0), Evt::Timeout(0), Evt::Random(0)] {
+            let rw = call(&wrapped, id, Some(ms), &ev, ust);
+            take_log(&lw);
+            if !mismatch_sx.is_empty() {
+                out.m(&format!("wrap-h {} {} {}", asx, mismatch_sx, ev.sx(id)), &rw);
+            } else if rw != "(- ())" {
+                out.v("server-with-client-state", &format!("{} on a Client state answered {}", path, rw));
+            }
+            out.stat(if rw == "panic" { "mismatched-tag-panics" } else { "mismatched-tag-noop" });
+        }
+    }
+}
+
+/// (ii)+(iii) wrapped vs unwrapped system walks
+fn system_case<A, M>(out: &mut Out, spec: &SysSpec, wraps: &[String], bound: usize, mk: &dyn Fn(usize, TableActor<M>) -> A,
+                      ust: &dyn Fn(&A::State) -> String, sample: bool)
+where
+    M: Code,
+    A: Actor<Msg = M, Timer = TTimer, Random = TRandom>,
+{
+    let lu = new_log();
+    let lw = new_log();
+    let mu = spec.model(spec.table_actors::<M>(Some(&lu)));
+    let gu = explore(&mu, bound, &tstate_sx, Some(&lu));
+    let actors: Vec<A> = spec.tables.iter().enumerate().map(|(i, t)| mk(i, TableActor::new(t.clone(), Some(lw.clone())))).collect();
+    let mw = spec.model(actors);
+    let gw = explore(&mw, bound, &ust, Some(&lw));
+    let wr: Vec<&str> = wraps.iter().map(|s| s.as_str()).collect();
+    let sxw = spec.to_sx(&wr);
+    out.m(&format!("graph {} {}", sxw, bound), &gw.to_sx());
+    let wraps_sx = format!("({})", wraps.iter().map(|w| format!("({})", w.chars().map(|c| c.to_string()).collect::<Vec<_>>().join(" "))).collect::<Vec<_>>().join(" "));
+    out.o(&format!("o-iso {} {} {}", wraps_sx, gu.to_sx(), gw.to_sx()));
+    // the C06 oracle on the wrapped walk: the inner actors were invoked exactly as the step relation says
+    out.o(&format!("o-graph {} {} ({})", sxw, gw.to_sx_with_log(), gw.init_log.iter().map(|i| i.to_sx()).collect::<Vec<_>>().join(" ")));
+    out.stat(&format!("system-wraps-{}", wraps.join(",")).chars().take(40).collect::<String>());
+    out.stat_n("system-transitions", gw.transitions() as u64);
+    out.stat_n("system-states", gw.states.len() as u64);
+    let uses = |k: &str| spec.tables.iter().any(|t| t.all_cmds().any(|c| c.kind() == k));
+    if uses("set-timer") { out.stat("system-uses-timers"); }
+    if uses("choose-random") { out.stat("system-uses-random"); }
+    if gw.transitions() > 0 { out.distinct(&sxw); }
+    if sample { out.sample(&format!("wrapped system {} -> {} states / unwrapped {} states", sxw, gw.states.len(), gu.states.len())); }
+}
+
+// ---- the concrete adapter stacks ----------------------------------------------------------------------
+type T = TableActor<TMsg>;
+type C1 = Choice<T, Never>;
+type C2 = Choice<T, T>;
+type C3 = Choice<T, Choice<T, Choice<T, Never>>>;
+type S1 = RegisterActor<TableActor<RM>>;
+type W1 = WORegisterActor<TableActor<WM>>;
+type SC = RegisterActor<Choice<TableActor<RM>, TableActor<RM>>>;
+type CS = Choice<RegisterActor<TableActor<RM>>, Never>;
+
+fn u1(s: &<C1 as Actor>::State) -> String { match s { Choice::L(x) => format!("(L {})", x.0), Choice::R(_) => unreachable!() } }
+fn u2(s: &<C2 as Actor>::State) -> String { match s { Choice::L(x) => format!("(L {})", x.0), Choice::R(x) => format!("(R {})", x.0) } }
+fn u3(s: &<C3 as Actor>::State) -> String {
+    match s {
+        Choice::L(x) => format!("(L {})", x.0),
+        Choice::R(Choice::L(x)) => format!("(R (L {}))", x.0),
+        Choice::R(Choice::R(Choice::L(x))) => format!("(R (R (L {})))", x.0),
+        Choice::R(Choice::R(Choice::R(_))) => unreachable!(),
+    }
+}
+fn us(s: &<S1 as Actor>::State) -> String { match s { RegisterActorState::Server(x) => format!("(S {})", x.0), _ => "client".into() } }
+fn uw(s: &<W1 as Actor>::State) -> String { match s { WORegisterActorState::Server(x) => format!("(W {})", x.0), _ => "client".into() } }
+fn usc(s: &<SC as Actor>::State) -> String {
+    match s { RegisterActorState::Server(Choice::L(x)) => format!("(S (L {}))", x.0), RegisterActorState::Server(Choice::R(x)) => format!("(S (R {}))", x.0), _ => "client".into() }
+}
+fn ucs(s: &<CS as Actor>::State) -> String {
+    match s { Choice::L(RegisterActorState::Server(x)) => format!("(L (S {}))", x.0), _ => "client".into() }
+}
+
+// ---- scripted Vec client ---------------------------------------------------------------------------------
+#[derive(Clone, Debug, PartialEq)]
+struct Echo;
+impl Actor for Echo {
+    type Msg = u8;
+    type State = u8;
+    type Timer = ();
+    type Random = ();
+    fn on_start(&self, _: Id, _: &mut AOut<Self>) -> u8 { 0 }
+    fn on_msg(&self, _: Id, state: &mut Cow<u8>, src: Id, msg: u8, o: &mut AOut<Self>) {
+        o.send(src, (msg + 1) % 3);
+        *state = Cow::Owned((**state + 1) % 2);
+    }
+}
+fn echo_table(n: usize) -> Table {
+    let mut t = Table::default();
+    for s in 0..2u8 { for src in 0..n { for m in 0..3u8 { t.msg.insert((s, src, m), Row { ns: Some((s + 1) % 2), cmds: vec![TCmd::Send(src, (m + 1) % 3)] }); } } }
+    t
+}
+type VC = Choice<Vec<(Id, u8)>, Choice<Echo, Never>>;
+fn uvc(s: &<VC as Actor>::State) -> String {
+    match s { Choice::L(k) => format!("(L {})", k), Choice::R(Choice::L(x)) => format!("(R (L {}))", x), Choice::R(Choice::R(_)) => unreachable!() }
+}
+
+fn vec_sx(sc: &[(Id, u8)]) -> String {
+    format!("(vec{})", sc.iter().map(|(d, m)| format!(" ({} {})", usize::from(*d), m)).collect::<String>())
+}
+
+fn vec_cases(out: &mut Out, r: &mut Rng, bound: usize) {
+    let len = r.below(6);
+    let n = r.range(2, 3);
+    let script: Vec<(Id, u8)> = (0..len).map(|_| (Id::from(r.below(n)), r.below(3) as u8)).collect();
+    let ssx = format!("({})", script.iter().map(|(d, m)| format!("({} {})", usize::from(*d), m)).collect::<Vec<_>>().join(" "));
+    // alone: on_start then k messages
+    for k in 0..=len + 1 {
+        let mut sends: Vec<(usize, u8)> = Vec::new();
+        let mut o: AOut<Vec<(Id, u8)>> = AOut::new();
+        let mut st = script.on_start(Id::from(0), &mut o);
+        for c in o.iter() { if let Command::Send(d, m) = c { sends.push((usize::from(*d), *m)); } }
+        for j in 0..k {
+            let mut o: AOut<Vec<(Id, u8)>> = AOut::new();
+            let mut cow = Cow::Borrowed(&st);
+            script.on_msg(Id::from(0), &mut cow, Id::from(1), (j % 3) as u8, &mut o);
+            let ns = match &cow { Cow::Borrowed(_) => "-".to_string(), Cow::Owned(s) => s.to_string() };
+            let osx = format!("({})", o.iter().filter_map(|c| if let Command::Send(d, m) = c { Some(format!("(s {} {})", usize::from(*d), m)) } else { None }).collect::<Vec<_>>().join(" "));
+            out.m(&format!("wrap-h {} {} (msg 0 1 {})", vec_sx(&script), st, j % 3), &format!("({} {})", ns, osx));
+            for c in o.iter() { if let Command::Send(d, m) = c { sends.push((usize::from(*d), *m)); } }
+            if let Cow::Owned(s) = cow { st = s; }
+        }
+        out.o(&format!("o-vec {} {} ({})", ssx, k, sends.iter().map(|(d, m)| format!("({} {})", d, m)).collect::<Vec<_>>().join(" ")));
+        out.stat(&format!("vec-script-len-{}", len));
+        out.distinct(&("vec", ssx.clone(), k));
+    }
+    // against echo servers: actor 0..c-1 clients, the rest echo servers
+    let clients = r.range(1, n - 1);
+    let kind = *r.pick(&NetKind::all());
+    let mut actors: Vec<VC> = Vec::new();
+    let mut actor_sx: Vec<String> = Vec::new();
+    for i in 0..n {
+        if i < clients {
+            let l = r.below(4);
+            let sc: Vec<(Id, u8)> = (0..l).map(|_| (Id::from(r.range(clients.min(n - 1), n - 1)), r.below(3) as u8)).collect();
+            actor_sx.push(format!("(L {})", vec_sx(&sc)));
+            actors.push(Choice::L(sc));
+        } else {
+            actor_sx.push(format!("(R (O {}))", echo_table(n).to_sx()));
+            actors.push(Choice::R(Choice::new(Echo)));
+        }
+    }
+    let spec = SysSpec { kind, lossy: r.chance(1, 2), max_crashes: r.below(2), hist: HistCfg { in_mode: 0, out_mode: if r.chance(1, 2) { 1 } else { 0 } },
+        init_envs: vec![], last: None, tables: (0..n).map(|_| Arc::new(Table::default())).collect() };
+    let model = spec.model(actors);
+    let g = explore(&model, bound, &uvc, None);
+    out.m(&format!("graph {} {}", spec.to_sx_with_actors(&actor_sx), bound), &g.to_sx());
+    out.stat("vec-client-system");
+    out.stat_n("vec-system-transitions", g.transitions() as u64);
+}
+
 fn main() {
-    let out = Out::new();
+    quiet_panics();
+    let mut out = Out::new();
+    let mut r = Rng::new(seed());
+    let th = thorough();
+    let n_act = arg_u64("--actors", if th { 10_000 } else { 500 }) as usize;
+    let n_sys = arg_u64("--systems", if th { 2_500 } else { 150 }) as usize;
+    let bound = arg_u64("--bound", if th { 150 } else { 80 }) as usize;
+    let client_rs = RegisterActorState::Client { awaiting: None, op_count: 0 };
+    let client_ws = WORegisterActorState::Client { awaiting: None, op_count: 0 };
+    for i in 0..n_act {
+        let mut rr = r.fork();
+        let n_actors = rr.range(1, 3);
+        let p = GenParams { density: 55, ..Default::default() };
+        let t = Arc::new(gen_table(&mut rr, &p, n_actors));
+        let ns = 4u8;
+        match i % 9 {
+            0 => handler_cases::<C1, TMsg>(&mut out, &mut rr, "O", &t, ns, n_actors, &|a| Choice::new(a), &|s| Choice::new(s), &u1, None, ""),
+            1 => handler_cases::<C2, TMsg>(&mut out, &mut rr, "L", &t, ns, n_actors, &|a| Choice::L(a), &|s| Choice::L(s), &u2, Some(&Choice::R(TState(1))), "(R 1)"),
+            2 => handler_cases::<C2, TMsg>(&mut out, &mut rr, "R", &t, ns, n_actors, &|a| Choice::R(a), &|s| Choice::R(s), &u2, Some(&Choice::L(TState(0))), "(L 0)"),
+            3 => handler_cases::<C3, TMsg>(&mut out, &mut rr, "RL", &t, ns, n_actors, &|a| Choice::R(Choice::L(a)), &|s| Choice::R(Choice::L(s)), &u3, Some(&Choice::R(Choice::R(Choice::L(TState(2))))), "(R (R (L 2)))"),
+            4 => handler_cases::<C3, TMsg>(&mut out, &mut rr, "RRO", &t, ns, n_actors, &|a| Choice::R(Choice::R(Choice::new(a))), &|s| Choice::R(Choice::R(Choice::new(s))), &u3, Some(&Choice::L(TState(0))), "(L 0)"),
+            5 => handler_cases::<S1, RM>(&mut out, &mut rr, "S", &t, ns, n_actors, &|a| RegisterActor::Server(a), &|s| RegisterActorState::Server(s), &us, Some(&client_rs), ""),
+            6 => handler_cases::<W1, WM>(&mut out, &mut rr, "W", &t, ns, n_actors, &|a| WORegisterActor::Server(a), &|s| WORegisterActorState::Server(s), &uw, Some(&client_ws), ""),
+            7 => handler_cases::<SC, RM>(&mut out, &mut rr, "SR", &t, ns, n_actors, &|a| RegisterActor::Server(Choice::R(a)), &|s| RegisterActorState::Server(Choice::R(s)), &usc, Some(&RegisterActorState::Server(Choice::L(TState(3)))), "(S (L 3))"),
+            _ => handler_cases::<CS, RM>(&mut out, &mut rr, "OS", &t, ns, n_actors, &|a| Choice::new(RegisterActor::Server(a)), &|s| Choice::new(RegisterActorState::Server(s)), &ucs, None, ""),
+        }
+        out.stat(&format!("adapter-{}", ["O", "L", "R", "RL", "RRO", "S", "W", "SR", "OS"][i % 9]));
+    }
+    for i in 0..n_sys {
+        let mut rr = r.fork();
+        let p = GenParams { actors: (1, 3), density: 35, max_crashes: (0, 1), ..Default::default() };
+        let spec = gen_sys(&mut rr, &p);
+        let n = spec.tables.len();
+        let sample = i < 2;
+        match i % 6 {
+            0 => system_case::<C1, TMsg>(&mut out, &spec, &vec!["O".to_string(); n], bound, &|_, a| Choice::new(a), &u1, sample),
+            1 => {
+                let w: Vec<String> = (0..n).map(|_| if rr.chance(1, 2) { "L".to_string() } else { "R".to_string() }).collect();
+                let w2 = w.clone();
+                system_case::<C2, TMsg>(&mut out, &spec, &w, bound, &move |i, a| if w2[i] == "L" { Choice::L(a) } else { Choice::R(a) }, &u2, sample)
+            }
+            2 => {
+                let w: Vec<String> = (0..n).map(|_| ["L", "RL", "RRO"][rr.below(3)].to_string()).collect();
+                let w2 = w.clone();
+                system_case::<C3, TMsg>(&mut out, &spec, &w, bound, &move |i, a| match w2[i].as_str() { "L" => Choice::L(a), "RL" => Choice::R(Choice::L(a)), _ => Choice::R(Choice::R(Choice::new(a))) }, &u3, sample)
+            }
+            3 => system_case::<S1, RM>(&mut out, &spec, &vec!["S".to_string(); n], bound, &|_, a| RegisterActor::Server(a), &us, sample),
+            4 => system_case::<W1, WM>(&mut out, &spec, &vec!["W".to_string(); n], bound, &|_, a| WORegisterActor::Server(a), &uw, sample),
+            _ => {
+                let w: Vec<String> = (0..n).map(|_| if rr.chance(1, 2) { "SL".to_string() } else { "SR".to_string() }).collect();
+                let w2 = w.clone();
+                system_case::<SC, RM>(&mut out, &spec, &w, bound, &move |i, a| RegisterActor::Server(if w2[i] == "SL" { Choice::L(a) } else { Choice::R(a) }), &usc, sample)
+            }
+        }
+    }
+    let n_vec = if th { 1500 } else { 120 };
+    for _ in 0..n_vec {
+        let mut rr = r.fork();
+        vec_cases(&mut out, &mut rr, bound);
+    }
     out.finish();
 }
